@@ -979,7 +979,10 @@ pub fn err_program(r: &mut Rng) -> String {
             match r.below(3) {
                 0 => format!("let rate1 = x -> x * 2\nlet rate2 = x -> x * 3\nfrom {t} | derive y = (rate{k} {c1})\n"),
                 1 => format!("let tab_a = (from {t})\nlet tab_b = (from {u})\nlet tab_c = (from {t} | take {n})\nfrom tab_{k} | select {{{c1}}}\n"),
-                _ => format!("module m {{ let f1 = x -> x + 1\n let f2 = x -> x + 2 }}\nfrom {t} | derive y = (m.f{k} {c1})\n"),
+                // numbered siblings inside a module, short and long (a suggestion filter may
+                // ignore names of one or two characters, S80)
+                _ if k % 2 == 0 => format!("module m {{ let f1 = x -> x + 1\n let f2 = x -> x + 2 }}\nfrom {t} | derive y = (m.f{k} {c1})\n"),
+                _ => format!("module m {{ let rate1 = x -> x + 1\n let rate2 = x -> x + 2\n let scale = x -> x * 2 }}\nfrom {t} | derive y = (m.rate{k} {c1})\n"),
             }
         }
         41 => {
